@@ -126,7 +126,7 @@ class P_discus(StructureParser):
                 superlattice = Lattice(*superlatpars)
                 self.stru.placeInLattice(superlattice)
                 self.stru.pdffit["ncell"] = [1, 1, 1, exp_natoms]
-        except (ValueError, IndexError, ZeroDivisionError):
+        except (ValueError, IndexError, ZeroDivisionError, OverflowError):
             exc_type, exc_value, exc_traceback = sys.exc_info()
             emsg = "%d: file is not in DISCUS format" % self.nl
             e = StructureFormatError(emsg)
